@@ -11,9 +11,24 @@ def catalogue():
     return [l.strip() for l in open(os.path.join(HERE, "gen", "catalogue.txt")) if l.strip()]
 
 
+def catalogue_marshal_only():
+    """types the crate can marshal but not unmarshal (5-tuples): MT, and RT with a dynamic read-back"""
+    return [l.strip() for l in open(os.path.join(HERE, "gen", "catalogue_m.txt")) if l.strip()]
+
+
+# flavour markers of gen/catalogue.py: another Rust type for the same D-Bus type (same tree, same tokens)
+BASE_FLAVOUR = {"D": "d", "S": "s", "O": "o", "G": "g"}
+ARRAY_FLAVOUR = "CRNB"
+
+
+def flavours(name):
+    """the flavour markers occurring in a catalogue name (for the input distribution)"""
+    return sorted(set(c for c in name if c in BASE_FLAVOUR or c in ARRAY_FLAVOUR))
+
+
 # ----------------------------------------------------------------------------- extended signatures
 def parse_ext(s):
-    """extended signature -> tree: ('b', c) | ('a', t) | ('r', [t..]) | ('e', k, t) | ('v', t)"""
+    """extended signature -> tree: ('b', c) | ('a', t) | ('r', [t..]) | ('e', k, t) | ('v', t); flavour markers are dropped"""
     t, rest = _parse(s)
     assert rest == "", s
     return t
@@ -23,10 +38,12 @@ def _parse(s):
     c = s[0]
     if c == "a":
         if s[1] == "{":
-            k = s[2]
+            k = BASE_FLAVOUR.get(s[2], s[2])
             v, rest = _parse(s[3:])
             assert rest[0] == "}"
             return ("e", k, v), rest[1:]
+        if s[1] in ARRAY_FLAVOUR:
+            s = s[1:]
         e, rest = _parse(s[1:])
         return ("a", e), rest
     if c == "(":
@@ -42,7 +59,7 @@ def _parse(s):
             assert rest[0] == "]"
             return ("v", inner), rest[1:]
         return ("v", None), s[1:]
-    return ("b", c), s[1:]
+    return ("b", BASE_FLAVOUR.get(c, c)), s[1:]
 
 
 def erased(t):
@@ -398,3 +415,343 @@ def erase_variants(t):
     if k == "e":
         return ("e", t[1], erase_variants(t[2]))
     return t
+
+
+# ----------------------------------------------------------------------------- layout of an encoding (to aim corruptions)
+ALIGN_OF_CHAR = {"y": 1, "b": 4, "n": 2, "q": 2, "i": 4, "u": 4, "x": 8, "t": 8, "d": 8, "h": 4, "s": 4, "o": 4, "g": 1,
+                 "a": 4, "(": 8, "v": 1, "{": 8}
+
+
+class Layout:
+    """A plain encoder of value tokens that remembers where the padding bytes, length fields, boolean values, string
+    bodies, terminators and variant signatures are: marks = [(kind, position in buf, length)].  It is used ONLY to aim
+    corruptions; the caller compares .buf with the bytes of the extracted specification and drops the marks when they
+    differ (so a mistake here can cost coverage, never a verdict)."""
+
+    def __init__(self, be, off):
+        self.order = "big" if be else "little"
+        self.off = off
+        self.buf = bytearray()
+        self.marks = []
+
+    def pad(self, a):
+        while (self.off + len(self.buf)) % a:
+            self.marks.append(("pad", len(self.buf), 1))
+            self.buf.append(0)
+
+    def num(self, v, width):
+        self.pad(width)
+        self.buf += int(v).to_bytes(width, self.order)
+
+    def enc(self, t):
+        k = t[0]
+        if k == "b":
+            tag, p = t[1], t[2]
+            if tag == "y":
+                self.buf.append(int(p))
+            elif tag == "b":
+                self.pad(4)
+                self.marks.append(("bool", len(self.buf), 4))
+                self.num(p, 4)
+            elif tag in "nq":
+                self.num(p, 2)
+            elif tag in "iuh":
+                self.num(p, 4)
+            elif tag in "xtd":
+                self.num(p, 8)
+            elif tag in "so":
+                data = bytes.fromhex(p) if p != "-" else b""
+                self.pad(4)
+                self.marks.append(("slen", len(self.buf), 4))
+                self.num(len(data), 4)
+                if data:
+                    self.marks.append(("sbody", len(self.buf), len(data)))
+                self.buf += data
+                self.marks.append(("term", len(self.buf), 1))
+                self.buf.append(0)
+            elif tag == "g":
+                data = bytes.fromhex(p) if p != "-" else b""
+                self.marks.append(("glen", len(self.buf), 1))
+                self.buf.append(len(data) % 256)
+                if data:
+                    self.marks.append(("sbody", len(self.buf), len(data)))
+                self.buf += data
+                self.marks.append(("term", len(self.buf), 1))
+                self.buf.append(0)
+            else:
+                raise ValueError(tag)
+        elif k in ("a", "e"):
+            self.pad(4)
+            lp = len(self.buf)
+            self.marks.append(("alen", lp, 4))
+            self.buf += bytes(4)
+            self.pad(8 if k == "e" else ALIGN_OF_CHAR[t[1][0]])
+            start = len(self.buf)
+            if k == "a":
+                for x in t[2]:
+                    self.enc(x)
+            else:
+                for a, b in t[3]:
+                    self.pad(8)
+                    self.enc(a)
+                    self.enc(b)
+            self.buf[lp:lp + 4] = (len(self.buf) - start).to_bytes(4, self.order)
+        elif k == "r":
+            self.pad(8)
+            for x in t[1]:
+                self.enc(x)
+        elif k == "v":
+            sig = t[1].encode()
+            self.marks.append(("vsig", len(self.buf), len(sig) + 2))
+            self.buf.append(len(sig))
+            self.buf += sig
+            self.buf.append(0)
+            self.enc(t[2])
+        else:
+            raise ValueError(t)
+
+
+def layout(be, off, toks):
+    lay = Layout(be, off)
+    pos = 0
+    toks = list(toks)
+    while pos < len(toks):
+        tree, pos = parse_tokens(toks, pos)
+        lay.enc(tree)
+    return bytes(lay.buf), lay.marks
+
+
+SIGS_BY_ALIGN = {1: ["y", "g", "v"], 2: ["n", "q"], 4: ["u", "i", "b", "s", "o", "ay", "as", "a{sv}"], 8: ["t", "x", "d", "(yy)", "(t)"]}
+CORRUPTION_CLASSES = ["pad-nonzero", "len-1", "len+1", "len-4", "len+4", "len-8", "len+8", "len=2^26+1", "bool=2", "bool-other", "nul-in-string",
+                      "terminator-nonzero", "siglen+-1", "vsig-same-align", "vsig-other-align", "vsig-two-types", "vsig-empty", "vsig-invalid",
+                      "nonzero", "bump", "len", "lenoff", "trunc", "utf8", "extend"]
+
+
+def aimed_corruptions(r, be, off, toks, enc, extra=6, all_padding=False):
+    """single-fault corruptions of the valid encoding `enc` (= the specification's bytes of `toks` at offset `off`): one of
+    EVERY class that applies to this value (CORRUPTION_CLASSES; aimed with the layout marks), plus `extra` of the untargeted
+    ones of corruptions().  Yields (class, bytes)."""
+    order = "big" if be else "little"
+    out = []
+    try:
+        lb, marks = layout(be, off, toks)
+    except Exception:
+        lb, marks = None, []
+    if lb != enc:
+        marks = []                # never aim with a layout that is not the specification's
+        out.append(("layout-differs", enc))
+    by = {}
+    for m in marks:
+        by.setdefault(m[0], []).append(m)
+
+    def put(kind, pos, new, tail=b""):
+        b = bytearray(enc)
+        b[pos:pos + len(new)] = new
+        out.append((kind, bytes(b) + tail))
+
+    # ---- padding: every padding position (or a sample of 4 per value), one byte non-zero
+    pads = by.get("pad", [])
+    for (_, p, _) in (pads if all_padding or len(pads) <= 4 else r.sample(pads, 4)):
+        put("pad-nonzero", p, bytes([r.choice([1, 255, 0x80, r.randrange(1, 256)])]))
+    # ---- length fields of arrays/dicts and strings
+    lens = by.get("alen", []) + by.get("slen", [])
+    if lens:
+        for name, d in (("len-1", -1), ("len+1", 1), ("len-4", -4), ("len+4", 4), ("len-8", -8), ("len+8", 8)):
+            # prefer a field where the result is not negative
+            cands = [m for m in lens if int.from_bytes(enc[m[1]:m[1] + 4], order) + d >= 0]
+            if not cands:
+                continue
+            (_, p, _) = r.choice(cands)
+            v = int.from_bytes(enc[p:p + 4], order) + d
+            # half of the enlarged lengths get the bytes they ask for (zeros or copies of the last bytes)
+            tail = b""
+            if d > 0 and r.random() < 0.5:
+                tail = r.choice([bytes(d), enc[-d:] if len(enc) >= d else bytes(d)])
+            put(name, p, v.to_bytes(4, order), tail)
+        (_, p, _) = r.choice(lens)
+        put("len=2^26+1", p, ((1 << 26) + 1).to_bytes(4, order))
+    # ---- booleans
+    for (_, p, _) in r.sample(by.get("bool", []), min(2, len(by.get("bool", [])))):
+        put("bool=2", p, (2).to_bytes(4, order))
+        put("bool-other", p, r.choice([3, 255, 256, 1 << 24, 0xFFFFFFFF, 0x01000001]).to_bytes(4, order))
+    # ---- text
+    bodies = by.get("sbody", [])
+    if bodies:
+        (_, p, n) = r.choice(bodies)
+        put("nul-in-string", p + r.randrange(n), b"\x00")
+    terms = by.get("term", [])
+    if terms:
+        (_, p, _) = r.choice(terms)
+        put("terminator-nonzero", p, bytes([r.choice([1, 0x61, 255])]))
+    glens = by.get("glen", []) + [("glen", m[1], 1) for m in by.get("vsig", [])]
+    if glens:
+        (_, p, _) = r.choice(glens)
+        put("siglen+-1", p, bytes([(enc[p] + r.choice([1, 255])) % 256]))
+    # ---- variant signatures: replaced (the value bytes stay)
+    vs = by.get("vsig", [])
+    if vs:
+        def splice(kind, m, newsig):
+            (_, p, n) = m
+            out.append((kind, enc[:p] + bytes([len(newsig)]) + newsig + b"\x00" + enc[p + n:]))
+        for kind in ("vsig-same-align", "vsig-other-align", "vsig-two-types", "vsig-empty", "vsig-invalid"):
+            m = r.choice(vs)
+            cur = enc[m[1] + 1:m[1] + m[2] - 1].decode("latin-1")
+            al = ALIGN_OF_CHAR.get(cur[:1], 1)
+            if kind == "vsig-same-align":
+                cands = [s for s in SIGS_BY_ALIGN[al] if s != cur]
+                splice(kind, m, r.choice(cands).encode())
+            elif kind == "vsig-other-align":
+                cands = [s for a2, l in SIGS_BY_ALIGN.items() if a2 != al for s in l]
+                splice(kind, m, r.choice(cands).encode())
+            elif kind == "vsig-two-types":
+                splice(kind, m, r.choice([cur + cur, cur + "y", "yy", "y" + cur, "uu"]).encode())
+            elif kind == "vsig-empty":
+                splice(kind, m, b"")
+            else:
+                splice(kind, m, r.choice([b"a", b"(", b"z", b"{sv}", b"()", b"a{vs}", b"(y", cur.encode() + b")"]))
+    # ---- the untargeted ones
+    for kind, b in corruptions(r, enc, limit=extra):
+        out.append((kind.split("@")[0], b))
+    return out
+
+
+# ----------------------------------------------------------------------------- values beyond the reach of ValGen
+def catalogue_deep():
+    return [l.strip() for l in open(os.path.join(HERE, "gen", "catalogue_deep.txt")) if l.strip()]
+
+
+def _arr(esig, items):
+    out = ["a", esig, str(len(items))]
+    for it in items:
+        out += it
+    return out
+
+
+def _text(n, r, multibyte=False):
+    """n bytes of valid UTF-8 without NUL"""
+    if multibyte and n >= 2:
+        body = ("é" * (n // 2)).encode()
+        return body + b"z" * (n - len(body))
+    return bytes(r.choice(b"abcdefghijklmnopqrstuvwxyz0123456789 ") for _ in range(n))
+
+
+def big_cases(r, thorough):
+    """Values ValGen cannot reach (it stops at 3 elements, 64-byte strings, < 1 KiB): length fields >= 64 KiB (with 8-byte
+    elements: the extracted model appends to lists, one-byte elements would be quadratic), strings around 2^8 and 2^16
+    bytes, 64 / 65 / 100 variants (or other containers) inside ONE array / dict, and legal nesting up to the limits.
+    Returns [(class, type name (catalogue, deep or marshal-only list), tokens)]; the caller picks byte orders and offsets."""
+    out = []
+
+    def w64(tag):
+        return [tag, str(r.choice([0, 1, (1 << 63) - 1, 1 << 63, (1 << 64) - 1, 0x7FF8000000000001, r.randrange(1 << 64)]))]
+
+    # ---- length field >= 2^16, few large elements (cheap for the extracted model, which appends to lists): arrays / dicts of
+    # 7000..9000-byte strings with 65536+ bytes of content, on the element-wise path in both byte orders
+    def long_s():
+        return ["s", hx(_text(r.choice([7000, 8192, 9000]), r, multibyte=r.random() < 0.2))]
+    large = [("as", lambda: _arr("s", [long_s() for _ in range(10)])),
+             ("a{ss}", lambda: ["e", "s", "s", "5"] + [x for i in range(5) for x in (["s", hx(b"k%d" % i + _text(7000, r))] + long_s())]),
+             ("a(ys)", lambda: _arr("(ys)", [["r", "2", "y", str(i)] + long_s() for i in range(10)])),
+             ("aS", lambda: _arr("s", [long_s() for _ in range(10)])),
+             ("aCs", lambda: _arr("s", [long_s() for _ in range(10)])),
+             ("aNs", lambda: _arr("s", [long_s() for _ in range(r.choice([8, 10]))])),
+             ("aRs", lambda: _arr("s", [long_s() for _ in range(10)])),
+             ("aas", lambda: _arr("as", [_arr("s", [long_s() for _ in range(9)]), _arr("s", [])])),
+             ("av[s]", lambda: _arr("v", [["v", "s"] + long_s() for _ in range(10)])),
+             ("a{sv[s]}", lambda: ["e", "s", "v", "9"] + [x for i in range(9) for x in (["s", hx(b"key%d" % i), "v", "s"] + long_s())])]
+    for ty, f in (large if thorough else large[:3] + r.sample(large[3:], 2)):
+        out.append(("len>=64KiB/large-elements", ty, f()))
+    # ---- length field >= 2^16 (8192 elements of 8 bytes = 65536 bytes exactly; the byte above bit 16 is exercised): the memcpy
+    # path in the native byte order, element-wise otherwise (there the extracted model is too slow: see model_cheap)
+    fixed = [("at", "t", "t"), ("aD", "d", "d"), ("aCt", "t", "t"), ("ax", "x", "x"), ("ad", "d", "d"), ("aNt", "t", "t"),
+             ("aRt", "t", "t"), ("aCD", "d", "d"), ("aCx", "x", "x"), ("aND", "d", "d")]
+    picks = fixed if thorough else fixed[:3] + r.sample(fixed[3:], 1)
+    for ty, esig, tag in picks:
+        n = r.choice([8192, 8193, 8200, 8750, 16385])
+        out.append(("len>=64KiB/8-byte-elements", ty, _arr(esig, [w64(tag) for _ in range(n)])))
+    n = r.choice([4096, 4097, 5000])
+    out.append(("len>=64KiB/8-byte-elements", "a(tt)", _arr("(tt)", [["r", "2"] + w64("t") + w64("t") for _ in range(n)])))
+    out.append(("len>=64KiB/8-byte-elements", "(yat)", ["r", "2", "y", "7"] + _arr("t", [w64("t") for _ in range(8192)])))
+    if thorough:
+        keys = r.sample(range(1 << 40), 4100)
+        out.append(("len>=64KiB/8-byte-elements", "a{tt}", ["e", "t", "t", "4100"] + [x for k in keys for x in (["t", str(k)] + w64("t"))]))
+        out.append(("len>=64KiB/8-byte-elements", "aat", _arr("at", [_arr("t", [w64("t") for _ in range(n)]) for n in (8192, 0, 8193)])))
+        out.append(("len>=64KiB/8-byte-elements", "v[at]", ["v", "at"] + _arr("t", [w64("t") for _ in range(8200)])))
+    # ---- strings around 2^8 and 2^16 bytes
+    lens = [255, 256, 257, 65535, 65536, 70000]
+    for n in (lens if thorough else [255, 256, 257, r.choice([65535, 65536]), 70000]):
+        ty = r.choice(["s", "S", "(ys)", "v[s]", "(Sy)"]) if n > 300 else r.choice(["s", "S", "(ys)", "as", "a{ss}", "v[S]", "(ySq)"])
+        s = ["s", hx(_text(n, r, multibyte=r.random() < 0.3))]
+        toks = {"s": s, "S": s, "(ys)": ["r", "2", "y", "1"] + s, "(Sy)": ["r", "2"] + s + ["y", "1"], "v[s]": ["v", "s"] + s, "v[S]": ["v", "s"] + s,
+                "as": _arr("s", [s, ["s", "61"], s]), "a{ss}": ["e", "s", "s", "1"] + s + s, "(ySq)": ["r", "3", "y", "1"] + s + ["q", "513"]}[ty]
+        out.append(("string~2^%d" % (8 if n < 300 else 16), ty, toks))
+    out.append(("string~2^8", "o", ["o", hx(b"/ab" * 85 + b"/c")]))           # 257 bytes
+    out.append(("string~2^8", "g", ["g", hx(b"y" * 255)]))                     # the longest signature
+    out.append(("string~2^8", "(yGq)", ["r", "3", "y", "1", "g", hx(b"ai" * 127), "q", "2"]))
+    out.append(("string~2^8", "aBy", _arr("y", [["y", str(i % 256)] for i in range(r.choice([255, 256, 257, 300]))])))
+    out.append(("string~2^8", "ay", _arr("y", [["y", str(i % 251)] for i in range(r.choice([255, 256, 257, 700]))])))
+    # ---- many containers in one context: 64, 65, 100 entries each entering (at least) one container
+    many = [("av[t]", lambda i: ["v", "t"] + w64("t"), "v"),
+            ("a{sv[s]}", None, None),
+            ("a(yv[at])", lambda i: ["r", "2", "y", str(i % 256), "v", "at"] + _arr("t", [w64("t")] * (i % 3)), "(yv)"),
+            ("aCv[t]", lambda i: ["v", "t"] + w64("t"), "v"),
+            ("aRv[s]", lambda i: ["v", "s", "s", hx(b"v%d" % i)], "v"),
+            ("aNv[y]", lambda i: ["v", "y", "y", str(i % 256)], "v"),
+            ("aav[t]", None, None),
+            ("a{sv[a{sv[y]}]}", None, None),
+            ("aat", lambda i: _arr("t", [w64("t")] * (i % 2)), "at"),
+            ("a(ys)", lambda i: ["r", "2", "y", str(i % 256), "s", hx(b"s%d" % i)], "(ys)")]
+    sizes = [64, 65, 100] if thorough else [r.choice([64, 65]), r.choice([65, 100])]
+    for ty, f, esig in (many if thorough else many[:3] + r.sample(many[3:], 3)):
+        for n in sizes if thorough else [r.choice(sizes)]:
+            if ty == "a{sv[s]}":
+                toks = ["e", "s", "v", str(n)] + [x for i in range(n) for x in ["s", hx(b"key%03d" % i), "v", "s", "s", hx(b"val%d" % i)]]
+            elif ty == "aav[t]":
+                toks = _arr("av", [_arr("v", [["v", "t"] + w64("t") for _ in range(n)]), _arr("v", [["v", "t"] + w64("t") for _ in range(3)])])
+            elif ty == "a{sv[a{sv[y]}]}":
+                toks = ["e", "s", "v", str(n)] + [x for i in range(n) for x in
+                                                   ["s", hx(b"k%03d" % i), "v", "a{sv}", "e", "s", "v", "1", "s", "69", "v", "y", "y", str(i % 256)]]
+            else:
+                toks = _arr(esig, [f(i) for i in range(n)])
+            out.append(("containers>=64", ty, toks))
+    # ---- legal nesting up to the limits: one element per level
+    for ty in (catalogue_deep() if thorough else r.sample(catalogue_deep(), 4)):
+        out.append(("deep", ty, ValGen(r, sizes=(1,), dict_sizes=(1,)).gen(parse_ext(ty))))
+    return out
+
+
+FIXED_WIDTH = "ynqiuxtd"
+
+
+def model_cheap(op, ty, bo, ntoks):
+    """whether the extracted model can run this line in reasonable time: it appends to lists and recomputes lengths, so
+    element-wise paths over thousands of elements take minutes (8192 u64: 3 minutes), while the memcpy path of the
+    native byte order, raw validation and the specification encoder are linear"""
+    if ntoks < 3000 or op in ("VR", "SE"):
+        return True
+    t = parse_ext(ty) if ty else None
+    return bool(t) and bo == "le" and op in ("MT", "RT", "UT") and t[0] == "a" and t[1][0] == "b" and t[1][1] in FIXED_WIDTH
+
+
+def run_each(exe, lines, robust=False, chunk=1, timeout=1800):
+    """vlib.par_run_lines with a fixed small chunk size (the big lines are few and expensive)"""
+    import concurrent.futures as cf
+    import vlib
+    if not lines:
+        return True, [], ""
+    chunks = [lines[i:i + chunk] for i in range(0, len(lines), chunk)]
+
+    def one(ch):
+        if robust:
+            good, o, e = vlib.run_lines_robust(exe, [], ch, timeout)
+            return good and len(o) == len(ch), o, e
+        rc, o, e = vlib.run_lines(exe, [], ch, timeout)
+        return rc == 0 and len(o) == len(ch), o, e
+    outs, errs, ok = [], [], True
+    with cf.ThreadPoolExecutor(min(len(chunks), vlib.NPROC)) as ex:
+        for good, o, e in ex.map(one, chunks):
+            if not good:
+                ok = False
+                errs.append(e[-1500:])
+            outs += o
+    return ok, outs, "\n".join(errs)
